@@ -106,7 +106,8 @@ struct DeflateSession {
                 st->avail_out = 0;
                 st->level = level;
                 st->gzip_flag = wrap;
-                st->hist_bits = hb;
+                bool hb_late = plan.at("dict").geti("hb_late") != 0; // the window size is a plain public field: set after the dictionary call
+                st->hist_bits = hb_late ? 0 : hb;
                 const Json &lb = plan.at("lb");
                 uint32_t lbs = level_buf_size_for(level, (int) lb.ai(0), (uint32_t) ((uint64_t) lb.ai(1) % 70000));
                 if (level == 0 && lb.ai(2) == 0) {
@@ -170,7 +171,12 @@ struct DeflateSession {
                         if (dj.geti("share") && !data.empty()) { // tail of the dictionary shares content with the data
                                 size_t sh = std::min<size_t>(std::min<size_t>(dn, data.size()), 1 + (uint64_t) dj.geti("share") % 40000);
                                 size_t off = (uint64_t) dj.geti("shoff") % (data.size() - sh + 1);
-                                memcpy(dict.data() + dn - sh, data.data() + off, sh);
+                                // shared content at the tail (short distances) or at the far end of what the window retains
+                                size_t eff = dn > IGZIP_HIST_SIZE ? IGZIP_HIST_SIZE : dn;
+                                if (sh > eff)
+                                        sh = eff;
+                                size_t at = dj.geti("shpos") ? dn - eff : dn - sh;
+                                memcpy(dict.data() + at, data.data() + off, sh);
                         }
                         Slot *s_dict = g_arena.alloc(dn, place, "dict", 0, 1);
                         if (!s_dict)
@@ -210,6 +216,7 @@ struct DeflateSession {
                         if (dn > IGZIP_HIST_SIZE)
                                 COUNT("probe.dict_longer_than_window");
                 }
+                st->hist_bits = hb;
                 ref.init(wrap_to_ref(wrap), eff_dict, eff_dict_len);
                 h.rec("open", { level, wrap, hb, (int64_t) st->level_buf_size, ht, dmode, (int64_t) data.size() });
                 h.sigmix(level * 131 + wrap * 17 + hb + ht * 7 + dmode * 3);
@@ -355,7 +362,7 @@ struct DeflateSession {
                         // suspected; confirmed only if the whole state is byte-identical across one more identical call
                         uint64_t hc = state_hash();
                         if (suspect && hc == suspect_hash) {
-                                rr.fail("C07.stuck", strf("two consecutive calls (%u) with all input offered, EOS set and %u bytes of output space left the whole stream state byte-identical in state %d", calls, out, st_after));
+                                rr.fail("C10.stuck", strf("two consecutive calls (%u) with all input offered, EOS set and %u bytes of output space left the whole stream state byte-identical in state %d: with this buffer size the end state is never reached", calls, out, st_after));
                                 return false;
                         }
                         suspect = true;
@@ -620,7 +627,7 @@ static Json gen_deflate(Rng &r0, const std::string &focus, int tier)
         Json dj = Json::obj();
         int dmode = (focus == "C17" ? r.chance(1, 2) : r.chance(1, 8)) ? 1 + (int) r.below(2) : 0;
         static const uint32_t dls[] = { 1, 2, 3, 8, 258, 4096, 32767, 32768, 32769, 40000, 65536, 70000 };
-        dj.set("mode", dmode).set("n", r.chance(1, 2) ? r.pick(dls) : (uint32_t) r.logsize(70000)).set("s", r.u64() >> 20).set("share", r.chance(2, 3) ? (int) (1 + r.logsize(40000)) : 0).set("shoff", r.u64() >> 40);
+        dj.set("mode", dmode).set("n", r.chance(1, 2) ? r.pick(dls) : (uint32_t) r.logsize(70000)).set("s", r.u64() >> 20).set("share", r.chance(2, 3) ? (int) (1 + r.logsize(40000)) : 0).set("shoff", r.chance(1, 2) ? 0 : r.u64() >> 40).set("shpos", (int) r.below(2)).set("hb_late", (int) r.chance(1, 3));
         p.set("dict", dj);
         Json mem = Json::obj();
         bool recycle = (focus == "C07" || focus == "C05") && rmem.chance(1, 8);
@@ -702,6 +709,7 @@ static Json gen_deflate(Rng &r0, const std::string &focus, int tier)
         for (auto &a : g_avoid)
                 av.push(a);
         p.set("avoid", av);
+        maybe_swarm_cpu(r, p, 1, 10);
         (void) tier;
         (void) planned;
         return p;
